@@ -29,7 +29,7 @@ func squashKey(d DevSet) string {
 }
 
 type sqItem struct {
-	path, kind, data string
+	path, kind, data, target string
 }
 
 // SquashModel returns the regular files the unpacking leaves on disk; fails=true if the
@@ -108,32 +108,127 @@ func SquashModel(spec *ImageSpec, dev DevSet) (files map[string]string, fails bo
 						kill[n] = cutRec{li, pos, "n"}
 					}
 				}
-				emitted = append(emitted, sqItem{e.Path, e.Kind, string(e.Content())})
+				it := sqItem{path: e.Path, kind: e.Kind, data: string(e.Content())}
+				if e.Kind == "l" {
+					it.target, _ = linkTarget(e.Path, e.Target)
+				}
+				emitted = append(emitted, it)
 			}
 		}
 	}
-	// the unpacker: first entry for a path wins, parents are created on demand
-	disk := map[string]string{} // path -> "f" | "l" | "d"
+	// the unpacker: entries in stream order; a path that exists is skipped; parents are created
+	// on demand THROUGH links already on disk; directories are never created for their own sake
+	disk := map[string]string{} // canonical path -> "f" | "l" | "d"
+	dest := map[string]string{} // link -> cleaned target
 	files = map[string]string{}
-	for _, it := range emitted {
-		if it.kind == "d" {
-			continue
+	// resolve follows p on the model disk (every component, links included): the canonical path
+	// and its kind ("" = does not exist); st: "" ok, "notdir" (a regular file on the way),
+	// "dangling" (a link that leads nowhere or in circles)
+	var resolve func(p string, hops int) (string, string, string)
+	resolve = func(p string, hops int) (string, string, string) {
+		if p == "" || p == "." {
+			return "", "d", ""
 		}
-		if _, exists := disk[it.path]; exists {
-			continue
+		if hops > 8 {
+			return "", "", "dangling"
 		}
-		for _, a := range ancestors(it.path) {
-			switch disk[a] {
-			case "f":
-				return nil, true, true
-			case "l":
-				return nil, false, false
+		cur := ""
+		segs := strings.Split(p, "/")
+		for i, seg := range segs {
+			next := seg
+			if cur != "" {
+				next = cur + "/" + seg
 			}
-			disk[a] = "d"
+			k := disk[next]
+			if k == "l" {
+				t, tk, st := resolve(dest[next], hops+1)
+				if st != "" {
+					return "", "", "dangling" // whatever goes wrong behind a link makes the entry be skipped
+				}
+				if tk == "" {
+					return "", "", "dangling"
+				}
+				next, k = t, tk
+			}
+			if i < len(segs)-1 {
+				switch k {
+				case "f":
+					return "", "", "notdir"
+				case "":
+					// the rest does not exist
+					rest := strings.Join(segs[i+1:], "/")
+					if next == "" {
+						return rest, "", ""
+					}
+					return next + "/" + rest, "", ""
+				}
+			}
+			cur = next
+			if i == len(segs)-1 {
+				return cur, k, ""
+			}
 		}
-		disk[it.path] = it.kind
-		if it.kind == "f" {
-			files[it.path] = it.data
+		return cur, "d", ""
+	}
+	// canon resolves the directory dir, creating it (MkdirAll) if mk
+	canon := func(dir string, mk bool, _ int) (string, string) {
+		if dir == "." || dir == "" {
+			return "", ""
+		}
+		c, k, st := resolve(dir, 0)
+		if st != "" {
+			return "", st
+		}
+		switch k {
+		case "f":
+			return "", "notdir"
+		case "":
+			if !mk {
+				return "", "dangling"
+			}
+			for _, a := range append(ancestors(c), c) {
+				if disk[a] == "" {
+					disk[a] = "d"
+				}
+			}
+		}
+		return c, ""
+	}
+	for pass := 0; pass < 3; pass++ { // unpack.DefaultMaxPass: entries skipped earlier get another chance
+		for _, it := range emitted {
+			if it.kind == "d" {
+				continue
+			}
+			// "already unpacked?" is an lstat of the lexical path, which the OS resolves through links
+			if d, st := canon(path.Dir(it.path), false, 0); st == "" {
+				full := path.Base(it.path)
+				if d != "" {
+					full = d + "/" + full
+				}
+				if _, exists := disk[full]; exists {
+					continue
+				}
+			}
+			d, st := canon(path.Dir(it.path), true, 0)
+			if st == "dangling" {
+				continue // the containment check cannot resolve the parent: the entry is skipped
+			}
+			if st != "" {
+				if it.kind == "f" {
+					return nil, true, true // MkdirAll fails: the whole unpacking fails
+				}
+				continue // link entries: the error is only logged
+			}
+			full := path.Base(it.path)
+			if d != "" {
+				full = d + "/" + full
+			}
+			disk[full] = it.kind
+			if it.kind == "f" {
+				files[full] = it.data
+			} else {
+				dest[full] = it.target
+			}
 		}
 	}
 	return files, false, true
